@@ -293,6 +293,95 @@ def rule_edges(ctx, rep):
             r.finding(inst + "|no-edge", where, "a %s initialiser names another declaration but contributes no edge: a self-containing structure through it is accepted" % name)
 
 
+def _is_some(b, rv):
+    """the assigned value is Some(..): the aggregate itself or a temporary that holds it"""
+    if rv[0] == "agg" and isinstance(rv[1], dict) and rv[1].get("variant") == "Some":
+        return True
+    if rv[0] == "use":
+        p = op_place(rv[1])
+        d = b.single_def(p[0]) if p is not None and not p[1] else None
+        return bool(d and d[0] == "stmt" and d[3][0] == "agg" and isinstance(d[3][1], dict) and d[3][1].get("variant") == "Some")
+    return False
+
+
+def rule_context(ctx, rep, rid="R-C07-context"):
+    """The graph builder refuses (P9999 'not implemented') when it meets an initializer while no declaration is current: the methods that
+    read `current_from` return an error for None.  So on every way the traversal leads from a kind of library element or type declaration to
+    such a method there must be an override that sets the context - otherwise a valid declaration of that kind (`TYPE A : INT := 1;`) is
+    rejected by the sort, and a cycle through it (`A : B := 1; B : A := 1;`) is never seen as a cycle."""
+    from vlib.traversal import Traversal, snake
+    r = rep.rule(rid, "every way from a library element / type declaration kind to a method of the graph builder that needs the current declaration passes an override that sets it",
+                 floor=8, floor_what="declaration kinds examined")
+    T = Traversal(ctx, "visit")
+    ov = {}
+    for st, ms in T.impls(("ironplc_analyzer",)).items():
+        if st.split("<")[0] == VIS:
+            ov = ms
+    if not ov:
+        rep.error(rid, "graph builder overrides not found")
+        return
+    setters, consumers = set(), set()
+    for m, b in ov.items():
+        for bd in [b] + [cb for cb in ctx.prog.bodies.values() if cb.f.get("parent") == b.id]:
+            for _, _, st_ in bd.all_stmts():
+                if st_[0] == "=":
+                    fs = [x for x in st_[1][1] if isinstance(x, list) and x[0] == "f"]
+                    if fs and fs[-1][3] == VIS and fs[-1][2] == "current_from" and _is_some(bd, st_[2]):
+                        setters.add(m)
+            # a consumer: branches on the discriminant of self.current_from and builds an Err on the None edge
+            for i in range(len(bd.bbs)):
+                si = switch_info(bd, i)
+                if si and si["kind"] == "disc" and si["subject"][0] == "place":
+                    fs = [x for x in si["subject"][1][1] if isinstance(x, list) and x[0] == "f"]
+                    if fs and fs[-1][3] == VIS and fs[-1][2] == "current_from":
+                        for succ, labs in si["edges"].items():
+                            if labs == ["None"]:
+                                region = bd.reachable(succ, avoid={s2 for s2 in si["edges"] if s2 != succ})
+                                if any(s_[0] == "=" and s_[2][0] == "agg" and isinstance(s_[2][1], dict) and s_[2][1].get("variant") == "Err" for i2, _, s_ in bd.all_stmts() if i2 in region) or \
+                                        any((c.callee or "").endswith("Diagnostic::todo") and c.bb in region for c in bd.calls()):
+                                    consumers.add(m)
+    # helper setters: a method that calls a helper which assigns Some (followed one level)
+    for m, b in ov.items():
+        for c in b.calls():
+            for hb in ctx.prog.get(c.callee or ""):
+                if (hb.f.get("impl") or {}).get("self") == VIS and not (hb.f.get("impl") or {}).get("trait_def"):
+                    for _, _, st_ in hb.all_stmts():
+                        if st_[0] == "=":
+                            fs = [x for x in st_[1][1] if isinstance(x, list) and x[0] == "f"]
+                            if fs and fs[-1][3] == VIS and fs[-1][2] == "current_from" and _is_some(hb, st_[2]):
+                                setters.add(m)
+    if not consumers:
+        rep.error(rid, "no method of the graph builder tests current_from (anchor moved)")
+        return
+    tops = []
+    for en in ("ironplc_dsl::common::LibraryElementKind", "ironplc_dsl::common::DataTypeDeclarationKind"):
+        for v in (ctx.facts.adts.get(en) or {}).get("variants", []):
+            for fl in v["fields"]:
+                if fl["ty"] in ctx.facts.adts and ctx.facts.adts[fl["ty"]]["kind"] == "struct":
+                    tops.append("visit_" + snake(fl["ty"].split("::")[-1]))
+    for top in sorted(set(tops)):
+        seen, stack, hit = set(), [(("v", top), (top,))], None
+        while stack and hit is None:
+            n, path = stack.pop()
+            if n in seen:
+                continue
+            seen.add(n)
+            if n[0] == "v" and n[1] in setters:
+                continue
+            if n[0] == "v" and n[1] in consumers:
+                hit = path
+                break
+            for m in T.succ(n, ov):
+                stack.append((m, path + ((m[1],) if m[0] == "v" else ())))
+        inst = top.replace("visit_", "")
+        where = "analyzer/src/xform_toposort_declarations.rs"
+        if hit is None:
+            r.ok(inst, where, "sets the context itself or reaches no method that needs it")
+        else:
+            r.finding(inst + "|no-context", where, "a %s reaches %s with no declaration current (%s): the sort answers P9999 for a valid declaration of this kind, and a cycle "
+                      "through it is not found" % (inst, hit[-1], " -> ".join(list(hit)[:6])))
+
+
 def rule_decl_edges(ctx, rep, rid="R-C07-decledges", order_only=False):
     """Every kind of type declaration whose definition can *name another type directly* (not through an initialiser, which
     R-C07-edges covers) must add an edge where it is visited: the alias `A : B`, an enumeration / subrange / array declared as
@@ -614,6 +703,7 @@ def run(ctx, rep):
     rule_edges(ctx, rep)
     rule_map(ctx, rep)
     rule_decl_edges(ctx, rep)
+    rule_context(ctx, rep)
     rule_edgeguard(ctx, rep)
     # the cycle check sees the whole unit: the sort runs once, on the joined library, first
     from rules.c06 import rule_pipeline
